@@ -9,9 +9,9 @@ func init() {
 			"(FOREST) only parseStops stores Stop.Parent, every non-nil store is dominated by the negative outcome of a bounded ancestor test on exactly the two nodes being linked, so no store can close a cycle, and Stop.Root's walk along Parent terminates. " +
 			"Not decided: correctness of the ancestor walk beyond its checked shape (bounded counter, compares with the node being linked, answers true when the bound is hit).",
 		Rules: []Rule{
-			{Name: "G13", Doc: "result-pointer provenance, growth discipline, id-map agreement", MinInstances: 12, Run: runRefRules},
+			{Name: "G13", Doc: "result-pointer provenance, growth discipline, id-map agreement", MinInstances: 8, Run: runRefRules},
 			{Name: "REQ", Doc: "required references non-nil at append", MinInstances: 1, Run: runRequiredRefs},
-			{Name: "FOREST", Doc: "parent links form a forest; Root terminates", MinInstances: 3, Run: runForest},
+			{Name: "FOREST", Doc: "parent links form a forest; Root terminates", MinInstances: 2, Run: runForest},
 		},
 	})
 }
